@@ -248,9 +248,35 @@ def vrange(*args):
     return builtins.range(*args)
 
 
+class SymBin:
+    """bin(v) of a symbolic NON-NEGATIVE int whose bit length is fixed on the path: '0b' + L binary digits"""
+
+    def __init__(self, seq):
+        self.seq = seq
+
+    @property
+    def __class__(self):
+        return str
+
+    def __getitem__(self, item):
+        if _isinstance(item, slice) and item.start == 2 and item.stop is None and item.step is None:
+            return Sym01(self.seq)
+        raise Unsupported('indexing bin() text other than [2:]')
+
+    def __hash__(self):
+        raise Unsupported('hash of symbolic bin() text')
+
+
 def vbin(x):
     if type(x) is SymInt:
-        x = ctx().concretise(x.e, 'bin() argument')
+        c = ctx()
+        if c.branch(x.e < 0):
+            x = c.concretise(x.e, 'bin() of a negative symbolic int')
+            return builtins.bin(x)
+        L = x.bit_length()              # forks: one path per feasible length
+        if L == 0:
+            return '0b0'
+        return SymBin(Seq([Val(L, x.e)]))
     return builtins.bin(x)
 
 
